@@ -25,6 +25,7 @@ pub fn sub<P: driver::Prop + 'static>(p: P, quick: usize, thorough: usize) -> Su
 /// sub-checks that run a case on the calling thread only (usable inside a libFuzzer target)
 pub fn fuzzable(name: &str) -> bool {
     name.contains("-layout")
+        || name == "c03-noop-barrier"
         || name.starts_with("c18-")
         || name.starts_with("c19-")
         || name.starts_with("c20-")
@@ -311,6 +312,16 @@ pub fn subs_for(id: &str) -> Vec<Sub> {
             4_000_000,
         )],
         "C03" => vec![sub(
+            p_builder::C03Noop {
+                cfg: GenCfg {
+                    p_barrier: 5,
+                    universe_max: 8,
+                    ..GenCfg::default()
+                },
+            },
+            100_000,
+            2_000_000,
+        ), sub(
             lp(
                 "C03",
                 "c03-layout",
@@ -769,10 +780,16 @@ pub fn sched_subs_for(id: &str) -> Vec<Sub> {
                 40_000,
             )
         }],
-        "C16" => vec![Sub {
-            max_lanes: 8,
-            ..sub(p_parseq::C16, 40_000, 1_500_000)
-        }],
+        "C16" => vec![
+            Sub {
+                max_lanes: 8,
+                ..sub(p_parseq::C16, 40_000, 1_500_000)
+            },
+            Sub {
+                max_lanes: 1,
+                ..sub(p_parseq::C16Static, 600, 20_000)
+            },
+        ],
         "C09" => vec![sub(p_world::C09, 150_000, 4_000_000)],
         "C08" => vec![
             sub(p_world::C08, 150_000, 4_000_000),
